@@ -48,6 +48,10 @@ def run(ctx, rep):
             r7(prog, ev, rep, impl["Value"][0])
     r8(prog, ev, rep)
     r9(prog, ev, rep, impl)
+    from rules import shared
+    shared.slot_verbatim(ctx, rep, "C10-R10", ["Literal::String"],
+                         "a pattern or subject written as a literal reaches match()/search() (which prepare the pattern text themselves) "
+                         "in another form than written, e.g. un-escaped twice")
 
 
 def _strip_validation(prog, t):
